@@ -24,13 +24,14 @@ func DefaultPars() []Par {
 }
 
 type runner struct {
-	lg   *sim.Log
-	w    *World
-	run  string
-	cur  int  // current node id
-	st   M    // projection at cur
-	n    int  // steps executed
-	dead bool // the run left the specification's number domain (recorded on stdout, not judged)
+	lg      *sim.Log
+	w       *World
+	run     string
+	cur     int                // current node id
+	st      M                  // projection at cur
+	n       int                // steps executed
+	nominal map[[2]int64]int64 // nominal price level of a pair in this run (default 1.0 / 2.0; some runs trade far below 1)
+	dead    bool               // the run left the specification's number domain (recorded on stdout, not judged)
 }
 
 var outOfDomain = 0
@@ -140,6 +141,9 @@ func (r *runner) centre(app, pair int64) int64 {
 			return p["lp"].(int64)
 		}
 	}
+	if v, ok := r.nominal[[2]int64{app, pair}]; ok {
+		return v
+	}
 	if pair == 2 {
 		return 20000
 	}
@@ -236,6 +240,9 @@ func (r *runner) randomStep(rng *sim.Rng, c cfg) {
 		life = maxLife / 2
 	}
 	ctr := r.centre(app, pair)
+	if ctr < 5000 { // far below 1: amounts large enough to be worth the minimum order value
+		amt *= 4
+	}
 	if r.st["lastPool"].([]int64)[app-1] >= MaxPool { // the fixture's account universe has MaxPool reserves per app
 		w[6], w[7] = 0, 0
 	}
@@ -283,10 +290,18 @@ func (r *runner) randomStep(rng *sim.Rng, c cfg) {
 		if offer < 100 {
 			offer = 100
 		}
+		args := M{"u": u, "app": app, "pair": pair, "dir": dir, "amt": amt, "offer": offer, "life": life}
+		if !market {
+			args["price"] = price
+		}
+		if rng.Intn(14) == 0 { // coins that do not belong to the pair
+			od, dd := r.foreignCoins(rng, app, pair, dir)
+			args["od"], args["dd"] = od, dd
+		}
 		if market {
-			r.step("MarketOrder", M{"u": u, "app": app, "pair": pair, "dir": dir, "amt": amt, "offer": offer, "life": life})
+			r.step("MarketOrder", args)
 		} else {
-			r.step("LimitOrder", M{"u": u, "app": app, "pair": pair, "dir": dir, "price": price, "amt": amt, "offer": offer, "life": life})
+			r.step("LimitOrder", args)
 		}
 	case 2:
 		tick := func(p int64) int64 { // round to 3 significant digits +1 (prec 3 => 4 digits)
@@ -716,6 +731,171 @@ func (r *runner) marketCycle(rng *sim.Rng, c cfg) {
 	}
 }
 
+// foreignCoins returns an (offer denom, demand denom) combination that does NOT fit the pair for an order of
+// direction dir: a third coin as offer with the right demand coin, the right offer coin with a wrong demand coin,
+// both wrong, or the pair's coins exchanged.
+func (r *runner) foreignCoins(rng *sim.Rng, app, pair int64, dir string) (string, string) {
+	base, quote := r.w.pairDenoms(uint64(app), uint64(pair))
+	third := "ucc"
+	for _, d := range []string{"uaa", "ubb", "ucc"} {
+		if d != base && d != quote {
+			third = d
+		}
+	}
+	od, dd := quote, base
+	if dir == "S" {
+		od, dd = base, quote
+	}
+	switch rng.Intn(4) {
+	case 0:
+		return third, dd
+	case 1:
+		return od, third
+	case 2:
+		return dd, od
+	default:
+		return third, FeeDenom
+	}
+}
+
+// foreignCoinCycle: victims rest a buy and a sell order in the pair; an adversary sends limit and market orders of
+// both directions whose offer coin is a third coin (right demand coin) or whose demand coin is wrong, priced to
+// cross the victims; a batch runs. Every such order must be rejected without change.
+func (r *runner) foreignCoinCycle(rng *sim.Rng, c cfg) {
+	app := c.apps[rng.Intn(len(c.apps))]
+	prs := c.pairsOf[app]
+	pair := prs[rng.Intn(len(prs))]
+	par := r.w.Pars[app-1]
+	life := par.MaxLife
+	us := []string{"u1", "u2", "u3"}
+	rng.Shuffle(len(us), func(i, j int) { us[i], us[j] = us[j], us[i] })
+	adv, v1, v2 := us[0], us[1], us[2]
+	L := tickOf(r.centre(app, pair))
+	amt := int64(3000)
+	if L < 5000 {
+		amt = 8000
+	}
+	bp, sp := tickOf(L*98/100), tickOf(L*102/100)
+	r.step("LimitOrder", M{"u": v1, "app": app, "pair": pair, "dir": "B", "price": bp, "amt": amt, "offer": (bp*amt+PS-1)/PS*12/10 + 2, "life": life})
+	r.step("LimitOrder", M{"u": v2, "app": app, "pair": pair, "dir": "S", "price": sp, "amt": amt, "offer": amt + amt/5 + 1, "life": life})
+	base, quote := r.w.pairDenoms(uint64(app), uint64(pair))
+	third := "ucc"
+	for _, d := range []string{"uaa", "ubb", "ucc"} {
+		if d != base && d != quote {
+			third = d
+		}
+	}
+	q := amt / 3
+	for _, dir := range []string{"B", "S"} {
+		od, dd, price := third, base, tickOf(L*103/100) // crosses the resting sell
+		if dir == "S" {
+			od, dd, price = third, quote, tickOf(L*97/100) // crosses the resting buy
+		}
+		offer := q + q/5 + 1
+		if dir == "B" {
+			offer = (price*q+PS-1)/PS*12/10 + 2
+		}
+		r.step("LimitOrder", M{"u": adv, "app": app, "pair": pair, "dir": dir, "price": price, "amt": q, "offer": offer, "life": life, "od": od, "dd": dd})
+		// right offer coin, wrong demand coin
+		od2, dd2 := quote, third
+		if dir == "S" {
+			od2, dd2 = base, third
+		}
+		r.step("LimitOrder", M{"u": adv, "app": app, "pair": pair, "dir": dir, "price": price, "amt": q, "offer": offer, "life": life, "od": od2, "dd": dd2})
+		if r.lastPrice(app, pair) > 0 {
+			r.step("MarketOrder", M{"u": adv, "app": app, "pair": pair, "dir": dir, "amt": q, "offer": offer * 12 / 10, "life": life, "od": od, "dd": dd})
+		}
+	}
+	r.batchOf(app)
+}
+
+// refillCycle: a sell order is partially filled in one batch; in a later batch the buy demand exceeds what is left
+// of it. Afterwards a fresh order is placed, a batch boundary passes (own clock) and its owner cancels it.
+func (r *runner) refillCycle(rng *sim.Rng, c cfg) {
+	app := c.apps[rng.Intn(len(c.apps))]
+	prs := c.pairsOf[app]
+	pair := prs[rng.Intn(len(prs))]
+	life := r.w.Pars[app-1].MaxLife
+	us := []string{"u1", "u2", "u3"}
+	rng.Shuffle(len(us), func(i, j int) { us[i], us[j] = us[j], us[i] })
+	seller, b1, b2 := us[0], us[1], us[2]
+	P := tickOf(r.centre(app, pair))
+	k := int64(1)
+	if P < 5000 {
+		k = 4
+	}
+	S := k * []int64{3000, 5000, 10000}[rng.Intn(3)]
+	buy := func(u string, amt int64) {
+		r.step("LimitOrder", M{"u": u, "app": app, "pair": pair, "dir": "B", "price": P, "amt": amt, "offer": (P*amt+PS-1)/PS*12/10 + 2, "life": life})
+	}
+	r.step("LimitOrder", M{"u": seller, "app": app, "pair": pair, "dir": "S", "price": P, "amt": S, "offer": S + S/5 + 1, "life": life})
+	buy(b1, S*2/5)
+	r.batchOf(app)
+	buy(b2, S*9/10) // more than the 3/5 that are left, less than the original amount
+	r.batchOf(app)
+	// a fresh order far from the book, one batch boundary, cancel
+	fp := tickOf(P * 93 / 100)
+	r.step("LimitOrder", M{"u": b1, "app": app, "pair": pair, "dir": "B", "price": fp, "amt": 500 * k, "offer": (fp*500*k+PS-1)/PS*12/10 + 2, "life": life})
+	id := int64(0)
+	for _, o := range r.orders(func(o M) bool {
+		return live(o) && o["owner"].(string) == b1 && o["app"].(int64) == app && o["pair"].(int64) == pair
+	}) {
+		if o["id"].(int64) > id {
+			id = o["id"].(int64)
+		}
+	}
+	r.batchOf(app)
+	if id > 0 {
+		r.step("CancelOrder", M{"u": b1, "app": app, "pair": pair, "id": id})
+	}
+	r.step("CancelAll", M{"u": b2, "app": app, "pairs": []int64{}})
+}
+
+// lowResidualCycle (pairs trading far below 1): two sell orders at the same price P above the last price, placed in
+// different batches, and a buy at P for a little more than one sell's size, where "a little" is worth less than one
+// quote unit (r*P < 1): the batch price rises off the last price and the older sell's batch group gets a residual.
+func (r *runner) lowResidualCycle(rng *sim.Rng, c cfg) {
+	for _, app := range c.apps {
+		for _, pair := range c.pairsOf[app] {
+			if r.nominal[[2]int64{app, pair}] == 0 || r.nominal[[2]int64{app, pair}] >= 5000 {
+				continue
+			}
+			life := r.w.Pars[app-1].MaxLife
+			if r.lastPrice(app, pair) == 0 {
+				ctr := tickOf(r.centre(app, pair))
+				r.step("LimitOrder", M{"u": "u1", "app": app, "pair": pair, "dir": "B", "price": ctr, "amt": int64(2000), "offer": (ctr*2000+PS-1)/PS*12/10 + 2, "life": life})
+				r.step("LimitOrder", M{"u": "u2", "app": app, "pair": pair, "dir": "S", "price": ctr, "amt": int64(2000), "offer": int64(2500), "life": life})
+				r.batchOf(app)
+				if r.lastPrice(app, pair) == 0 {
+					continue
+				}
+			}
+			L := r.lastPrice(app, pair)
+			P := tickOf(L * int64(102+rng.Intn(6)) / 100)
+			A := []int64{3000, 5000, 10000}[rng.Intn(3)]
+			rr := int64(1 + rng.Intn(int((PS-1)/P)))
+			us := []string{"u1", "u2", "u3"}
+			rng.Shuffle(len(us), func(i, j int) { us[i], us[j] = us[j], us[i] })
+			sell := func(u string, amt int64) {
+				r.step("LimitOrder", M{"u": u, "app": app, "pair": pair, "dir": "S", "price": P, "amt": amt, "offer": amt + amt/5 + 1, "life": life})
+			}
+			sell(us[0], A)
+			r.batchOf(app)
+			sell(us[1], A)
+			amt := A + rr
+			r.step("LimitOrder", M{"u": us[2], "app": app, "pair": pair, "dir": "B", "price": P, "amt": amt, "offer": (P*amt+PS-1)/PS*12/10 + 2, "life": life})
+			r.batchOf(app)
+			r.block(6)
+			for _, o := range r.orders(func(o M) bool { return live(o) && o["app"].(int64) == app && o["pair"].(int64) == pair }) {
+				if _, ok := r.w.Acct[o["owner"].(string)]; ok && rng.Intn(2) == 0 {
+					r.step("CancelOrder", M{"u": o["owner"].(string), "app": app, "pair": pair, "id": o["id"].(int64)})
+				}
+			}
+			return
+		}
+	}
+}
+
 // farmCycle: the id-exchange axes of farming (pool id != pair id, pool id != app id) and the life of farm positions
 // with several farmers in one pool: staggered farm times (one farmer's entry matures while the other's stays queued,
 // in both role assignments), top-up of an ACTIVE position, unfarming an active position down to exactly zero and
@@ -809,9 +989,15 @@ func (r *runner) cancelAllCycle(rng *sim.Rng, c cfg) {
 				dir, price = "B", tickOf(ctr*94/100)
 			}
 			amt := amtGrid[rng.Intn(len(amtGrid))]
+			if ctr < 5000 {
+				amt *= 6
+			}
 			offer := amt + amt/5 + 1
 			if dir == "B" {
 				offer = (price*amt+PS-1)/PS*12/10 + 2
+			}
+			if offer < 100 {
+				offer = 100
 			}
 			r.step("LimitOrder", M{"u": u, "app": app, "pair": pair, "dir": dir, "price": price, "amt": amt, "offer": offer, "life": life})
 		}
@@ -930,6 +1116,12 @@ func driveRandom(lg *sim.Log, base *World, seed int64, runs, steps int) {
 		default: // pools and farming heavy on app 1
 			c = cfg{apps: []int64{1}, pairsOf: map[int64][]int64{1: {1}}, pools: true, mm: true}
 		}
+		r.nominal = map[[2]int64]int64{}
+		if i%5 == 1 || i%5 == 3 { // pairs trading far below 1: a base unit is worth less than one quote unit
+			for _, app := range c.apps {
+				r.nominal[[2]int64{app, c.pairsOf[app][0]}] = []int64{1500, 2000, 2500, 3300}[rng.Intn(4)]
+			}
+		}
 		r.setupPairs(rng, c)
 		if c.pools { // a basic pool per pair and some pool-coin holders / farmers from the start
 			for _, app := range c.apps {
@@ -955,30 +1147,40 @@ func driveRandom(lg *sim.Log, base *World, seed int64, runs, steps int) {
 		if rng.Intn(3) == 0 {
 			r.step("CreatePair", M{"u": "u1", "app": c.apps[0], "base": "uaa", "quote": "ubb"}) // duplicate
 		}
-		cyc := []int{steps / 4, steps * 2 / 3}
-		lad := []int{steps / 6, steps / 2, steps * 5 / 6}
-		call := []int{steps / 3, steps * 3 / 4}
-		mkt := []int{steps / 5, steps * 2 / 5, steps * 7 / 10}
-		frm := []int{steps * 11 / 20}
-		for r.n < steps {
-			switch {
-			case c.mm && len(cyc) > 0 && r.n >= cyc[0]:
-				cyc = cyc[1:]
-				r.mmCycle(rng, c)
-			case c.mm && len(lad) > 0 && r.n >= lad[0]:
-				lad = lad[1:]
-				r.ladderCycle(rng, c)
-			case len(mkt) > 0 && r.n >= mkt[0]:
-				mkt = mkt[1:]
-				r.marketCycle(rng, c)
-			case len(frm) > 0 && r.n >= frm[0]:
-				frm = frm[1:]
-				r.farmCycle(rng, c)
-			case len(call) > 0 && r.n >= call[0]:
-				call = call[1:]
-				r.cancelAllCycle(rng, c)
-			default:
+		// the directed cycles of this run, in shuffled order, alternating with stretches of random steps: every cycle
+		// kind occurs in every run it applies to, and about half of the steps stay random
+		type cyc func(*sim.Rng, cfg)
+		plan := []cyc{r.marketCycle, r.marketCycle, r.foreignCoinCycle, r.refillCycle}
+		if c.mm {
+			plan = append(plan, r.mmCycle, r.ladderCycle)
+			if rng.Intn(2) == 0 {
+				plan = append(plan, r.ladderCycle)
+			}
+		}
+		if len(r.nominal) > 0 {
+			plan = append(plan, r.lowResidualCycle, r.lowResidualCycle)
+		}
+		if c.pools && (i%2 == 0 || rng.Intn(3) == 0) {
+			plan = append(plan, r.farmCycle)
+		}
+		for _, app := range c.apps {
+			if len(c.pairsOf[app]) > 1 {
+				plan = append(plan, r.cancelAllCycle, r.cancelAllCycle)
+				break
+			}
+		}
+		rng.Shuffle(len(plan), func(a, b int) { plan[a], plan[b] = plan[b], plan[a] })
+		gap := steps / (2 * (len(plan) + 1)) // random steps between two cycles
+		for len(plan) > 0 || r.n < steps {
+			for k := 0; k < gap || (len(plan) == 0 && r.n < steps); k++ {
 				r.randomStep(rng, c)
+			}
+			if len(plan) > 0 {
+				plan[0](rng, c)
+				plan = plan[1:]
+			}
+			if r.n > 2*steps {
+				break
 			}
 		}
 		r.drain(c)
